@@ -135,6 +135,9 @@ Definition subject_bound (c : consumer) (cl : claimset) : Prop :=
   match c with
   | CCliSend _ u | CStorage _ u _ _ => rd_str "sub" cl = Some u
   | CSession req => exists l, rd_int "auth_type" cl = Some l /\ Z.land l req <> 0
+  | CToken r => rd_str "sub" cl = Some (fst (presented_creds r))
+      (* the code's subject is the ONE client the request authenticated as: the header's when an
+         Authorization header is present, the body's client_id only otherwise *)
   | _ => True
   end.
 
@@ -180,10 +183,11 @@ Proof.
     split; [eauto|]. auto.
   - destruct (token_endpoint i now (with_code r t)) as [idt act|s] eqn:C; [|discriminate]. intros _.
     apply token_release_sound in C. cbn [with_code tr_code] in C.
-    destruct C as [k [c [V [D [_ [_ [_ [E [_ [T _]]]]]]]]]].
-    apply verify_sound in V. pose proof (dec_code_fields _ _ D) as [_ [X [_ [_ [_ [_ [TY _]]]]]]].
-    split; [exact V|]. split; [congruence|]. split; [|split; [intros []|exact I]].
-    split; [eauto|]. split; [intros []|exact I].
+    destruct C as [k [c [V [D [_ [_ [SUB [E [_ [T _]]]]]]]]]].
+    apply verify_sound in V. pose proof (dec_code_fields _ _ D) as [SB [X [_ [_ [_ [_ [TY _]]]]]]].
+    split; [exact V|]. split; [congruence|]. split; [|split; [intros []|]].
+    + split; [eauto|]. split; [intros []|exact I].
+    + unfold presented_creds in *. cbn [with_code tr_basic tr_form_client tr_form_secret] in SUB. congruence.
   - destruct (c_userinfo (srv i) now t) as [u|] eqn:C; [|discriminate]. intros _.
     apply c_userinfo_sound in C. destruct C as [G [K [_ [E _]]]].
     split; [exact G|]. split; [exact K|]. split; [|split; [intros []|exact I]].
@@ -230,7 +234,8 @@ Lemma single_claim_resigned i now c t n v : accepts i now c (reclaim t n v) = tr
   (n = "aud"%string -> must_name_server c -> exists rest, v = VList (s_issuer (srv i) :: rest)) /\
   (n = "nbf"%string -> checks_nbf c -> exists z, v = VInt z /\ z <= unix now) /\
   (n = "exp"%string -> exists z, v = VInt z /\ exp_ok now c z) /\
-  (n = "sub"%string -> match c with CCliSend _ u | CStorage _ u _ _ => v = VStr u | _ => True end) /\
+  (n = "sub"%string -> match c with CCliSend _ u | CStorage _ u _ _ => v = VStr u
+                                  | CToken r => v = VStr (fst (presented_creds r)) | _ => True end) /\
   (n = "auth_type"%string -> match c with CSession req => exists l, v = VInt l /\ Z.land l req <> 0 | _ => True end).
 Proof.
   intro A. apply accepts_sound in A. cbn [reclaim t_claims] in A.
